@@ -127,11 +127,18 @@ func (s *JavaAPIListener) EnterAnnotation(ctx *parser.AnnotationContext) {
 				addApiMethod(pair.ElementValue().GetText())
 			}
 			if pair.Identifier().GetText() == "value" {
-				text := pair.ElementValue().GetText()
-				currentRestAPI.Uri = baseApiUrl + text[1:len(text)-1]
+				currentRestAPI.Uri = baseApiUrl + removeQuote(pair.ElementValue().GetText())
 			}
 		}
 	}
+}
+
+// removeQuote strips the quotes of a string literal; any other element value (a constant) is kept as written
+func removeQuote(text string) string {
+	if len(text) >= 2 && strings.HasPrefix(text, "\"") && strings.HasSuffix(text, "\"") {
+		return text[1 : len(text)-1]
+	}
+	return text
 }
 
 func buildBaseApiUrlString(annotationName string, ctx *parser.AnnotationContext) {
@@ -142,13 +149,11 @@ func buildBaseApiUrlString(annotationName string, ctx *parser.AnnotationContext)
 			for _, valuePair := range allValuePair {
 				pair := valuePair.(*parser.ElementValuePairContext)
 				if pair.Identifier().GetText() == "value" {
-					text := pair.ElementValue().GetText()
-					baseApiUrl = text[1 : len(text)-1]
+					baseApiUrl = removeQuote(pair.ElementValue().GetText())
 				}
 			}
 		} else if ctx.ElementValue() != nil {
-			text := ctx.ElementValue().GetText()
-			baseApiUrl = text[1 : len(text)-1]
+			baseApiUrl = removeQuote(ctx.ElementValue().GetText())
 		} else {
 			baseApiUrl = "/"
 		}
